@@ -16,6 +16,7 @@ def tasks(tier, seed):
         func("bt.core.SecurityBase.outlay"),
         func("bt.core.SecurityBase.transact"),
         func("bt.core.StrategyBase.adjust"),
+        dict(kind="custom", module="props.bounded", fn="run_script", script="c07_ledger", seed=seed, n=15 if tier == "quick" else 300, props=["C05"]),      # the total cost of a trade, audited trade by trade
         dict(kind="custom", module="props.bounded", fn="run_script", script="c05_sizing", seed=seed, n=1500 if tier == "quick" else 40000, props=["C05"]),
     ]
 
